@@ -450,3 +450,109 @@ func pkgIdentityByPath(c *core.Check) {
 	}
 	c.Min("package-identity-by-path", 1)
 }
+
+// ---------------------------------------------------------------------------------------------------------------------
+// C05: a typedef reference is the pair (AST it points into, alias). Rule (go/ssa): the Typedef whose category is copied
+// into a reference in (*resolver).ResolveTypedef is, on every path, the result of GetTypedef called on the pair's own AST
+// with the pair's own name. A value from any other source (a cache keyed by the alias only, another file's table) can
+// belong to a different file that happens to declare the same alias.
+func c05typedefSource(c *core.Check) {
+	prog := c.Prog
+	prog.SSA()
+	pkg := prog.SSAPkg("semantic")
+	fn := rules.Method(prog.SSA(), pkg, "resolver", "ResolveTypedef")
+	key := "semantic.(resolver).ResolveTypedef/typedef-source"
+	if fn == nil || len(fn.Params) < 2 {
+		c.Unknown("anchor", "semantic.(resolver).ResolveTypedef", "", "missing")
+		return
+	}
+	pair := fn.Params[1]
+	fieldLoad := func(v ssa.Value) (ssa.Value, string) { // *(&X.f) -> X, f
+		u, ok := v.(*ssa.UnOp)
+		if !ok || u.Op != token.MUL {
+			return nil, ""
+		}
+		fa, ok := u.X.(*ssa.FieldAddr)
+		if !ok {
+			return nil, ""
+		}
+		pt, ok := fa.X.Type().Underlying().(*types.Pointer)
+		if !ok {
+			return nil, ""
+		}
+		st, ok := pt.Elem().Underlying().(*types.Struct)
+		if !ok {
+			return nil, ""
+		}
+		return fa.X, st.Field(fa.Field).Name()
+	}
+	// stores to <pair>.Type.Category
+	n := 0
+	for _, b := range fn.Blocks {
+		for _, ins := range b.Instrs {
+			st, ok := ins.(*ssa.Store)
+			if !ok {
+				continue
+			}
+			fa, ok := st.Addr.(*ssa.FieldAddr)
+			if !ok {
+				continue
+			}
+			base, f := fieldLoad(fa.X)
+			pt, _ := fa.X.Type().Underlying().(*types.Pointer)
+			if base != ssa.Value(pair) || f != "Type" || pt == nil {
+				continue
+			}
+			if s, ok := pt.Elem().Underlying().(*types.Struct); !ok || s.Field(fa.Field).Name() != "Category" {
+				continue
+			}
+			n++
+			// the stored value: *(&(*(&TD.Type)).Category)
+			var bad []string
+			tdType, f1 := fieldLoad(st.Val)
+			if f1 != "Category" {
+				// FieldAddr on a loaded pointer: st.Val = load(FieldAddr(load(FieldAddr(TD, Type)), Category))
+				bad = append(bad, "the stored category is not read from a typedef's type")
+			} else {
+				td, f2 := fieldLoad(tdType)
+				if f2 != "Type" {
+					bad = append(bad, "the stored category is not read from a typedef's type")
+				} else {
+					seen := map[ssa.Value]bool{}
+					var walk func(v ssa.Value)
+					walk = func(v ssa.Value) {
+						if seen[v] {
+							return
+						}
+						seen[v] = true
+						switch x := v.(type) {
+						case *ssa.Phi:
+							for _, e := range x.Edges {
+								walk(e)
+							}
+						case *ssa.Extract:
+							call, ok := x.Tuple.(*ssa.Call)
+							if ok && call.Call.StaticCallee() != nil && call.Call.StaticCallee().Name() == "GetTypedef" && len(call.Call.Args) == 2 {
+								rb, rf := fieldLoad(call.Call.Args[0])
+								nb, nf := fieldLoad(call.Call.Args[1])
+								if rb == ssa.Value(pair) && rf == "AST" && nb == ssa.Value(pair) && nf == "Name" {
+									return
+								}
+								bad = append(bad, "GetTypedef is not called on the pair's own AST with the pair's own name")
+								return
+							}
+							bad = append(bad, "a typedef obtained from "+x.Tuple.String())
+						default:
+							bad = append(bad, "a typedef obtained from "+v.String())
+						}
+					}
+					walk(td)
+				}
+			}
+			c.Decide(len(bad) == 0, "typedef-lookup-in-own-ast", fmt.Sprintf("%s#%d", key, n), prog.Rel(st.Pos()),
+				"the category comes from t.AST.GetTypedef(t.Name) on every path",
+				fmt.Sprintf("the category copied into the reference comes from %v: a typedef of the same alias in another file can be used, so the reference gets the wrong category", bad))
+		}
+	}
+	c.Min("typedef-lookup-in-own-ast", 1)
+}
